@@ -209,6 +209,14 @@ pub fn similar_args() -> Vec<Value> {
         // arguments that differ structurally but coincide under looser renderings (unquoted map keys, joined items)
         map(&[("a", Value::Int(1)), ("b", Value::Int(2))]), map(&[("a: i1, b", Value::Int(2))]), map(&[("a\": Int(1), \"b", Value::Int(2))]),
         Value::Vec(vec![s("a"), s("b")]), Value::Vec(vec![s("a\", \"b")]), Value::Vec(vec![s("a, b")]), s("a\"b"), s("a\\\"b"),
+        // arguments that coincide under a lossy projection a hand-written key might take: whole seconds of instants / spans
+        // whose nanosecond, microsecond or millisecond count does not fit 64 bits, the numeric value of a decimal, a float's
+        // value as an integer, a list's length, a string's prefix
+        crate::pool::dt(253402300799, 0), crate::pool::dt(253402300799, 999_000_000), crate::pool::dt(10413792000, 1), crate::pool::dt(10413792000, 2),
+        crate::pool::dt(-14830000000, 250_000_000), crate::pool::dt(-14830000000, 750_000_000), crate::pool::dt(1438226773, 0), crate::pool::dt(1438226773, 1),
+        crate::pool::dur(12096000000, 0), crate::pool::dur(12096000000, 1_000_000), crate::pool::dur(9223372036, 854_775_807), crate::pool::dur(9223372036, 854_775_808),
+        crate::pool::dur(1, 0), crate::pool::dur(1, 1), Value::Float(1.5), Value::Float(1.0000000000000002), Value::Int(i64::MAX as i128), Value::Int(i64::MAX as i128 + 1), Value::Int(-1), Value::Int((1i128 << 64) - 1),
+        Value::Vec(vec![Value::Vec(vec![Value::Int(1)])]), Value::Vec(vec![Value::Int(1), Value::None]), s("1 "), s(" 1"), s("\u{661}"),
     ]
 }
 
@@ -582,6 +590,29 @@ pub fn deep_none_cases(rng: &mut Rng, n: usize) -> Vec<RsCase> {
 /// left-nested chains `v1 op v2 op … op vn` of 10 / 33 / 40 / 70 / 150 operands for every binary operator (one operator, or
 /// two of the same family alternating), over small well-typed operands with one special operand (None, a type error,
 /// zero, an extreme) at the start, in the middle or at the end; and long lists / maps / access paths
+/// both operands of a binary operator resolve to ONE stored value (the same field, the same symbol, the field reached in
+/// two ways): an identity shortcut (pointer equality, "x op x" folding) is right only where the operator is reflexive
+pub fn same_operand_cases(full: bool) -> Vec<RsCase> {
+    let mut out = vec![];
+    for v in boundary_pool(full) {
+        let facts = map(&[("a", v.clone()), ("b", v.clone()), ("w", Value::Vec(vec![v.clone(), v.clone()]))]);
+        let env = EnvSpec { syms: vec![("s".into(), v.clone())], fns: vec![FnSpec::new("g", true, FnKind::Id)] };
+        let mut rules = vec![];
+        for op in BIN_OPS.iter().chain(LAZY_BIN.iter()) {
+            rules.push(mk_bin(op, reff("a"), reff("a")));
+            rules.push(mk_bin(op, idxk(reff("facts"), "a"), reff("a")));
+            rules.push(mk_bin(op, reff("a"), reff("b")));
+            rules.push(mk_bin(op, Expr::Symbol("s".into()), Expr::Symbol("s".into())));
+            rules.push(mk_bin(op, idxn(reff("w"), 0), idxn(reff("w"), 0)));
+            rules.push(mk_bin(op, call("g", reff("a")), call("g", reff("a"))));
+        }
+        rules.push(iff(mk_bin("eq", reff("a"), reff("a")), lit(Value::Int(1)), lit(Value::Int(2))));
+        rules.push(mk_bin("contains", Expr::Vec(vec![reff("a")]), reff("a")));
+        out.push(RsCase { tag: "same-operand".into(), rules, facts, env, evals: 1 });
+    }
+    out
+}
+
 pub fn chain_cases() -> Vec<RsCase> {
     let env = EnvSpec { syms: vec![], fns: vec![] };
     let mut out = vec![];
